@@ -31,12 +31,16 @@ POOL = collections.OrderedDict(
         ("idx_ad_b", ("indexed", "chi2", "idx_ad", 4, 0, ["y-abs-rho"])),
         ("hist_chi2", ("hist", "chi2", "normal", 5, 1, ["y-abs"])),
         ("idx_ad5", ("indexed", "chi2", "idx_ad", 5, 2, ["y-abs"])),
+        # an indexed member with model-referenced sources (its own total covariance is more than its data covariance)
+        ("idx_ad_relm", ("indexed", "chi2", "idx_ad", 4, 1, ["y-abs", "y-rel-model", "y-abs-model"])),
     ]
 )
 
 
 class MultiWorld(object):
-    def __init__(self, member_names, minimizer="iminuit"):
+    def __init__(self, member_names, minimizer="iminuit", pre=()):
+        """pre: (member index, FitWorld op) pairs applied to the members BEFORE the multi-fit is built (each followed by reads of the
+        member's values and cost, so that its graph has been evaluated): members that were used on their own first"""
         import kafe2
 
         self.k2 = kafe2
@@ -48,6 +52,10 @@ class MultiWorld(object):
             for j, k in enumerate(kinds):
                 w.apply(("add", k, "m%de%d" % (i, j)))
             self.members.append(w)
+        for i, o in pre:
+            self.members[i].apply(tuple(o))
+            self.members[i].observe("parameter_values")
+            self.members[i].observe("cost_function_value")
         with warnings.catch_warnings():
             warnings.simplefilter("ignore")
             self.multi = kafe2.MultiFit([w.fit for w in self.members], minimizer=minimizer)
